@@ -10,6 +10,8 @@ from ..lib import FAILED
 from ..runner import Sub
 
 ID = 'C19'
+TECHNIQUE = 'PBT against a reference greedy matcher exploring all tie resolutions + accounting identities; atheris in thorough'
+LEVEL_TEXT = 'Exploration: TP must be a reachable greedy count; error scores within the reachable nearest-neighbour range. Finds counter-examples (shrunk to a replay file); never proves absence.'
 RULE = ('Cases = (curve n in 3..40|200 with x, y >= 0; non-empty sorted distinct knee set K; non-empty expected '
         'points E drawn as exact curve points, perturbed curve points and far-away points, |K|+|E| <= n; '
         'tolerance t in [0, 0.5] incl. distance ratios that occur exactly; 4 strategies).  Oracle: reference '
